@@ -267,6 +267,107 @@ func commonTypeNamespaceFamily() *core.Family {
 	}
 }
 
+// (d2) bodies with TWO references: a record type whose two attributes name common types, each
+// reference in either spelling (unqualified, or qualified with the namespace the types live
+// in). One target named twice, by one spelling or by both, gives a dependency graph with
+// parallel edges; with a cycle elsewhere in the graph every in-degree / visited-set
+// bookkeeping of the cycle check is exercised.
+func commonTypeTwoRefFamily(tier string) *core.Family {
+	nsNames := []types.Path{"", "A", "A::B"}
+	type ref struct {
+		t sast.IsType
+		d string
+	}
+	refs := func(ns types.Path) []ref {
+		out := []ref{{sast.Long(), "Long"}}
+		for j := 0; j < 3; j++ {
+			tn := "T" + string(names[j])
+			out = append(out, ref{sast.Type(types.Path(tn)), tn})
+			if ns != "" {
+				out = append(out, ref{sast.Type(types.Path(string(ns) + "::" + tn)), string(ns) + "::" + tn})
+			}
+		}
+		return out
+	}
+	type body struct {
+		t sast.IsType
+		d string
+	}
+	bodies := func(ns types.Path) []body {
+		rs := refs(ns)
+		out := []body{{sast.Long(), "Long"}}
+		for _, a := range rs {
+			for _, b := range rs {
+				out = append(out, body{sast.RecordType{"x": sast.Attribute{Type: a.t}, "y": sast.Attribute{Type: sast.Set(b.t), Optional: true}}, "{x: " + a.d + ", y?: Set<" + b.d + ">}"})
+			}
+		}
+		return out
+	}
+	var per [3]int
+	var third [3][]int // the bodies the third type ranges over (all of them in the thorough tier)
+	total := 0
+	var offs [4]int
+	for w, ns := range nsNames {
+		nb := len(bodies(ns))
+		if tier == "thorough" {
+			for k := 0; k < nb; k++ {
+				third[w] = append(third[w], k)
+			}
+		} else {
+			// refs(ns) is [Long, Ta, Tb, Tc] at the top level, else [Long, Ta, NS::Ta, Tb, NS::Tb, Tc, NS::Tc];
+			// body 1 + a*nr + b is {x: refs[a], y?: Set<refs[b]>}.
+			// Long; {Ta, Long}; {Ta, NS::Ta}; {Tb, NS::Tb}; {Tc, Tc}
+			nr := len(refs(ns))
+			if ns == "" {
+				third[w] = []int{0, 1 + 1*nr + 0, 1 + 1*nr + 1, 1 + 2*nr + 2, 1 + 3*nr + 3}
+			} else {
+				third[w] = []int{0, 1 + 1*nr + 0, 1 + 1*nr + 2, 1 + 3*nr + 4, 1 + 5*nr + 5}
+			}
+		}
+		per[w] = nb * nb * len(third[w])
+		offs[w+1] = offs[w] + per[w]
+		total += per[w]
+	}
+	return &core.Family{
+		Name:       "common-types-with-two-references",
+		Desc:       fmt.Sprintf("three common types together in the top level, in A, or in A::B; bodies Long or {x: R1, y?: Set<R2>} with R1, R2 over {Long, Tj, NS::Tj} (every pair of targets and of spellings, incl. one target named twice by both spellings): %d schemas; used by an entity and an action context next to them", total),
+		N:          int64(total),
+		Isolated:   true,
+		CrashClass: func(i int64) string { return "common-types-with-two-references" },
+		Run: func(t *core.T, i int64) {
+			x := int(i)
+			w := 0
+			for x >= offs[w+1] {
+				w++
+			}
+			x -= offs[w]
+			ns := nsNames[w]
+			bs := bodies(ns)
+			idx := [3]int{x % len(bs), x / len(bs) % len(bs), third[w][x/len(bs)/len(bs)]}
+			n := sast.Namespace{CommonTypes: sast.CommonTypes{}, Entities: sast.Entities{}, Actions: sast.Actions{}}
+			var desc []string
+			shape := sast.RecordType{}
+			for k := 0; k < 3; k++ {
+				tn := types.Ident("T" + string(names[k]))
+				n.CommonTypes[tn] = sast.CommonType{Type: bs[idx[k]].t}
+				desc = append(desc, fmt.Sprintf("type %s = %s", tn, bs[idx[k]].d))
+				shape[types.String("f"+string(names[k]))] = sast.Attribute{Type: sast.Type(types.Path(tn))}
+			}
+			n.Entities["E"] = sast.Entity{Shape: shape}
+			n.Actions["act"] = sast.Action{AppliesTo: &sast.AppliesTo{Principals: []sast.EntityTypeRef{"E"}, Resources: []sast.EntityTypeRef{"E"}, Context: shape}}
+			s := &sast.Schema{}
+			if ns == "" {
+				s.CommonTypes, s.Entities, s.Actions = n.CommonTypes, n.Entities, n.Actions
+			} else {
+				s.Namespaces = sast.Namespaces{ns: n}
+			}
+			d := fmt.Sprintf("namespace %q { %s }", ns, strings.Join(desc, "; "))
+			resolveAndRun(t, "common-types-two-refs", d, s)
+			t.Sample(d)
+		},
+	}
+}
+
 // (e) typechecker totality: every policy of C15's policy space (all operator forms over
 // typed leaves, well- and ill-typed) plus three-element set literals over entity-type
 // unions, record unions and scalars: Validator.Policy returns in both modes.
@@ -476,7 +577,7 @@ func Check() *core.Check {
 			"a case is non-trivial if the schema resolved (so the validation battery ran)",
 		Assumptions: []string{"pairs of dimensions are not combined (one dimension at a time)", "a nil type inside a programmatically built schema AST is outside the domain (no decoder produces one)"},
 		Families: func(tier string) []*core.Family {
-			return []*core.Family{referenceFamily(), hierarchyFamily(), commonTypeFamily(), commonTypeNamespaceFamily(), actionFamily(), typecheckerFamily()}
+			return []*core.Family{referenceFamily(), hierarchyFamily(), commonTypeFamily(), commonTypeNamespaceFamily(), commonTypeTwoRefFamily(tier), actionFamily(), typecheckerFamily()}
 		},
 	}
 }
